@@ -35,8 +35,30 @@ func VH_C13_ArrayIterators() {
 	addr := vhAddr(1)
 	a, model := vhBuildArray(storage, addr, vhArrayShape())
 	n := len(model)
-	flavour := vhChoose("flavour", 7)
+	flavour := vhChoose("flavour", 8)
 	switch flavour {
+	case 7: // invalid ranges (ANY 64-bit bounds) are rejected by every range flavour, valid ones accepted
+		s64, e64 := vhU64("start"), vhU64("end")
+		valid := vhAll(s64 <= e64, e64 <= uint64(n))
+		count := 0
+		visit := func(Value) (bool, error) { count++; return true, nil }
+		var err error
+		switch vhChoose("rangeapi", 4) {
+		case 0:
+			err = a.IterateRange(s64, e64, visit)
+		case 1:
+			err = a.IterateReadOnlyRange(s64, e64, visit)
+		case 2:
+			_, err = a.RangeIterator(s64, e64)
+		case 3:
+			_, err = a.ReadOnlyRangeIterator(s64, e64)
+		}
+		if valid {
+			vhAssert(err == nil, "valid range accepted")
+		} else {
+			vhAssert(err != nil, "invalid range rejected")
+			vhAssert(count == 0, "invalid range yields nothing")
+		}
 	case 0:
 		vhSameSeq(vhCollectArray("mutable", a.Iterate), model, "mutable")
 	case 1:
